@@ -327,6 +327,38 @@ def atoms(test, pol, norm=None):
     return out
 
 
+def _prune(facts):
+    """drop the negative facts that a positive one already implies: with `x == A` known, `not x == B` and
+    `not x in [B, C]` (A, B, C distinct constants) say nothing more. An if/elif chain and a sequence of independent
+    exclusive tests then give the same facts."""
+    pos = {}
+    for f in facts:
+        n = getattr(f, 'node', None)
+        if f[1] and isinstance(n, ast.Compare) and len(n.ops) == 1 and _constant_like(n.comparators[0]):
+            if isinstance(n.ops[0], (ast.Eq, ast.Is)):
+                pos.setdefault(ast.unparse(n.left), set()).add(frozenset([ast.unparse(n.comparators[0])]))
+            elif isinstance(n.ops[0], ast.In) and isinstance(n.comparators[0], (ast.List, ast.Tuple, ast.Set)):
+                pos.setdefault(ast.unparse(n.left), set()).add(frozenset(ast.unparse(x) for x in n.comparators[0].elts))
+    if not pos:
+        return facts
+    out = []
+    for f in facts:
+        n = getattr(f, 'node', None)
+        if not f[1] and isinstance(n, ast.Compare) and len(n.ops) == 1 and _constant_like(n.comparators[0]):
+            k = ast.unparse(n.left)
+            if k in pos:
+                if isinstance(n.ops[0], (ast.Eq, ast.Is)):
+                    excl = {ast.unparse(n.comparators[0])}
+                elif isinstance(n.ops[0], ast.In) and isinstance(n.comparators[0], (ast.List, ast.Tuple, ast.Set)):
+                    excl = {ast.unparse(x) for x in n.comparators[0].elts}
+                else:
+                    excl = None
+                if excl is not None and any(not (p & excl) for p in pos[k]):
+                    continue
+        out.append(f)
+    return tuple(out)
+
+
 class FactMap:
     """facts and enclosing exception handlers for every node of a function body."""
 
@@ -337,10 +369,15 @@ class FactMap:
         self.facts = {}
         self.handlers = {}      # id(node) -> tuple of tuples of caught exception names (innermost last)
         self.stmt_of = {}       # id(expr node) -> enclosing statement
+        self._pruned = set()
         self._block(fn_node.body, [], ())
 
     def at(self, node):
-        return self.facts.get(id(node), ())
+        fs = self.facts.get(id(node), ())
+        if len(fs) > 1 and id(node) not in self._pruned:
+            fs = self.facts[id(node)] = _prune(fs)
+            self._pruned.add(id(node))
+        return fs
 
     def closed(self, node):
         """the facts at node as a set of (text, polarity) in closed form (see sa.defuse): no local names."""
@@ -495,6 +532,69 @@ def _helper_predicates(unit):
     return out
 
 
+def expand_self(unit, e, depth=0):
+    """e (an expression or its text) with every `self.h(..)` / `self.h` whose implementation (through the MRO of the
+    unit's class, no override below) is a single `return <expr>` replaced by that expression, recursively; returned as
+    canonical text. `self.conflicting()` and `len(self.running_identifiers) > 1` then read the same: a rule that names
+    a one-line helper accepts the helper written out, and the reverse."""
+    import copy
+    if isinstance(e, str):
+        e = ast.parse(e, mode='eval').body
+    P = PROGRAM
+    if P is None or unit.cls is None:
+        return ctext(e)
+
+    def one_line(name, is_call):
+        mem = P.member(unit.cls, name)
+        if not mem or mem[0] not in ('method', 'prop') or (mem[0] == 'prop') == is_call:
+            return None
+        if any(name in sub.methods or name in sub.props for sub in P.all_subs(unit.cls)):
+            return None
+        fn = mem[2].node
+        body = [st for st in fn.body if not (isinstance(st, ast.Expr) and isinstance(st.value, ast.Constant))]
+        if len(body) != 1 or not isinstance(body[0], ast.Return) or body[0].value is None:
+            return None
+        if fn.args.vararg or fn.args.kwarg or fn.args.kwonlyargs or fn.args.defaults:
+            return None
+        return fn, body[0].value
+
+    class T(ast.NodeTransformer):
+        def __init__(self, d):
+            self.d = d
+
+        def sub(self, node, name, args):
+            r = one_line(name, args is not None)
+            if r is None or self.d > 3:
+                return node
+            fn, val = r
+            params = [a.arg for a in fn.args.args][1:]
+            if len(params) != len(args or []):
+                return node
+            m = dict(zip(params, args or []))
+            val = copy.deepcopy(val)
+
+            class S(ast.NodeTransformer):
+                def visit_Name(self, n):
+                    return copy.deepcopy(m[n.id]) if n.id in m and isinstance(n.ctx, ast.Load) else n
+            val = S().visit(val)
+            return T(self.d + 1).visit(val)
+
+        def visit_Call(self, n):
+            self.generic_visit(n)
+            f = n.func
+            if isinstance(f, ast.Attribute) and isinstance(f.value, ast.Name) and f.value.id == 'self' and not n.keywords:
+                return self.sub(n, f.attr, list(n.args))
+            return n
+
+        def visit_Attribute(self, n):
+            self.generic_visit(n)
+            if isinstance(n.value, ast.Name) and n.value.id == 'self' and isinstance(n.ctx, ast.Load):
+                return self.sub(n, n.attr, None)
+            return n
+    out = T(depth).visit(copy.deepcopy(e))
+    return ctext(ast.fix_missing_locations(out))
+
+
 def factmap(unit):
     fm = _FM.get(id(unit.node))
     if fm is None:
@@ -629,6 +729,19 @@ def returns(unit):
     out = []
     for n in own_nodes(unit.node):
         if isinstance(n, ast.Return):
+            v = n.value
+            if isinstance(v, ast.Name):
+                # a result local (single-exit style): one entry per assignment of the local, under the facts of the
+                # assignment and of the return - the same entries as the early-return style gives
+                asg = [a for a in own_nodes(unit.node) if isinstance(a, (ast.Assign, ast.AnnAssign)) and a.value is not None
+                       and any(isinstance(t, ast.Name) and t.id == v.id
+                               for t in (a.targets if isinstance(a, ast.Assign) else [a.target]))]
+                if len(asg) > 1 and not any(isinstance(x, ast.AugAssign) and isinstance(x.target, ast.Name)
+                                            and x.target.id == v.id for x in own_nodes(unit.node)):
+                    for a in asg:
+                        seen = {tuple(f) for f in fm.at(a)}
+                        out.append((a.value, tuple(fm.at(a)) + tuple(f for f in fm.at(n) if tuple(f) not in seen), a))
+                    continue
             out.append((n.value, fm.at(n), n))
     if not always_exits(unit.node.body):
         # facts at the fall-through end: negations of the early exits at top level
